@@ -1,7 +1,8 @@
 SPECIFICATION Spec
 CONSTANTS
   MaxLen = 3
+  Wide = FALSE
   Emit = FALSE
-INVARIANT NoClauseFalsified
-PROPERTY IssueSticky
+INVARIANTS NoClauseFalsified BatchIsSequence
+PROPERTIES IssueSticky ShunnedFrozen
 CHECK_DEADLOCK FALSE
